@@ -5,5 +5,6 @@ CONSTANTS
   Variants <- VariantsAll
   Redirects = {FALSE, TRUE}
   PullGated = TRUE
+  TLSKinds = {"none", "ca"}
 INVARIANTS Inv_CredsStrict Inv_WrittenImpliesOrigin
 CHECK_DEADLOCK FALSE
